@@ -130,6 +130,18 @@ pub fn de_slice(schema: &Schema, bytes: &[u8], hint: &Hint, limits: &Limits) -> 
 	})
 }
 
+/// Like [`de_slice`] for an ordinary `Deserialize` target: (value, bytes consumed). Not guarded:
+/// wrap in [`guarded`].
+pub fn de_slice_typed<'de, T: serde::Deserialize<'de>>(schema: &Schema, bytes: &'de [u8], limits: &Limits) -> Result<(T, usize), String> {
+	let mut config = DeserializerConfig::new(schema);
+	limits.apply(&mut config);
+	let mut state = DeserializerState::with_config(SliceRead::new(bytes), config);
+	let v = T::deserialize(state.deserializer()).map_err(|e| e.to_string())?;
+	let mut rest = state.into_reader();
+	let left = rest.fill_buf().map_err(|e| e.to_string())?.len();
+	Ok((v, bytes.len() - left))
+}
+
 pub struct ReaderRun {
 	pub consumed: usize,
 	pub fill_calls: usize,
